@@ -9,7 +9,7 @@
    real code gives the same answers).  The full refinement statement for histories outside
    the two known classes is kept as C26_full_statement; what is proved of it is listed
    below (theorems named _partial). *)
-From NDB Require Import Base.Bytes BTree.BTree BTree.Spec BTree.Witness BTree.Leaf_proofs BTree.SingleLeaf_proofs BTree.Delete_proofs BTree.Chain_proofs BTree.Insert_proofs.
+From NDB Require Import Base.Bytes BTree.BTree BTree.Spec BTree.Witness BTree.Leaf_proofs BTree.SingleLeaf_proofs BTree.Delete_proofs BTree.Chain_proofs BTree.Insert_proofs BTree.Inv BTree.Inv_proofs.
 
 (* ---- the full statement (NOT proved; see the _partial theorems and the manifest) ---- *)
 (* for every history outside the known classes: every operation (insert, delete, lookup, seek+scan,
@@ -118,6 +118,20 @@ Definition C26_insert_fits_exact_partial_statement : Prop :=
 Theorem C26_insert_fits_exact_partial : C26_insert_fits_exact_partial_statement.
 Proof. exact insert_fits_exact. Qed.
 Print Assumptions C26_insert_fits_exact_partial.
+
+(* the executable invariant BTree/Inv.v wf_state (leaves strictly sorted inside their separator bounds,
+   sibling pointers = in-order, byte accounting, no page twice; evaluated by the correspondence on every
+   generated history outside the known classes) implies, for EVERY state: the first in-order leaf is a
+   leaf page of the heap and the sibling chain from it runs through exactly the remaining leaves, so that
+   the in-order contents are that leaf's cells followed by the chain's cells.  With
+   C26_cursor_chain_partial: a scan positioned on the first leaf returns the in-order contents. *)
+Definition C26_invariant_chain_partial_statement : Prop :=
+  forall st, wf_state st = true ->
+    exists p c r d rest,
+      hget (st_heap st) p = Some (Leaf c r d) /\ chain (st_heap st) r rest /\ contents st = c ++ concat rest.
+Theorem C26_invariant_chain_partial : C26_invariant_chain_partial_statement.
+Proof. exact wf_state_chain. Qed.
+Print Assumptions C26_invariant_chain_partial.
 
 (* the insert position in a leaf (the code's lower-bound loop) is the multimap's: in front of every
    entry with key >= k, hence newest first among equal keys — for every sorted leaf, equal keys allowed *)
